@@ -1646,6 +1646,26 @@ def gen_c10_spec(rng: random.Random) -> Dict[str, Any]:
                 s_["beh"] = [dict(s_["beh"], out="requeue")] * rng.choice([1, 1, 2]) + [s_["beh"]]
     if rng.random() < 0.35:
         spec["worker_flag"] = True  # the broker object is flagged as living in a worker process (what the CLI does)
+    if spec["cfg"]["ack"] == "when_saved" and spec["loop_ackable"] and spec.get("via") != "inmemory" and rng.random() < 0.12:
+        # acknowledging fails (the connection to the broker is gone): everything before the ack has happened
+        spec["loop_ack_raise"] = True
+    elif spec.get("via") != "inmemory" and "retry" not in spec and rng.random() < 0.1:
+        # the worker stops with a short wait_tasks_timeout while a function still runs; the event loop is then closed,
+        # which cancels that execution from outside: the function ended with CancelledError - a failing execution
+        # (no concurrency limit: with every slot busy the unchanged worker does not honour the timeout - finding F6 of
+        # C05; nothing else is in mid-flight when the loop is closed: hooks, store and sends take no time here)
+        spec["cfg"]["W"] = 0.05
+        spec["cfg"]["A"] = None
+        spec["kick_lat"] = 0
+        spec["backend"]["lat"] = 0
+        for mw_ in spec["mws"] + spec["mws2"]:
+            for hs_ in mw_.values():
+                if isinstance(hs_, dict) and hs_.get("lat"):
+                    hs_["lat"] = 0
+        for s_ in sends:
+            if s_["task"] == "t_async" and "labels" not in s_ and isinstance(s_["beh"], dict) and rng.random() < 0.5:
+                s_["beh"]["dur"] = [20.0]
+                s_["beh"].pop("cleanup", None)
     return spec
 
 
